@@ -10,7 +10,8 @@ from the source of __escape, else a backslash and the character (backslash: two 
 constants are read from the source every run); each step's side condition is a regular-language fact about the REAL regex, decided by
 the derivative engine (pvc/rx2smt.py: T_language gives the matches of a regex in context, look-behinds included):
   S1  re.sub(r1, 'a', W) maps W = ESC(s) unit by unit (two backslashes -> the replacement character, other units unchanged):
-      L(r1) = {two backslashes}; no other unit starts with two backslashes, and the character after an escaping backslash is not a
+      in any context r1 matches two backslashes and nothing else, and it does match a unit of two backslashes wherever that unit
+      stands in an escaped text; no other unit starts with two backslashes, and the character after an escaping backslash is not a
       backslash, so the left-to-right non-overlapping scan (R3) stays on unit boundaries.  The result is in
       L1 = UNIT1 UNIT1+, UNIT1 = (any character outside M and backslash) | backslash (a character of M).
   F1  no string of L1 fullmatches r2 (`\\\\?.`): the one-unit branch is not taken.
@@ -166,11 +167,13 @@ def decide(rep):
 
     def inside(k):        # matches of the regex anywhere inside a string of L1
         return R.conj(R.T_language(T[k], U), L1m)
-    two_bs = R.cat(R.MARK, R.cs(BS), R.cs(BS), R.MARK)
+    unit0 = R.alt(R.cs(Nset), R.cat(R.cs(BS), R.cs(R.cs_union(Mset, BS))))      # the units of ESC(s), before the first substitution
+    two_bs_anywhere = R.cat(ANY, R.MARK, R.cs(BS), R.cs(BS), R.MARK, ANY)
+    two_bs_unit = R.cat(R.star(unit0), R.MARK, R.cs(BS), R.cs(BS), R.MARK, R.star(unit0))
     facts = [
-        ("S1 the first substitution's regex matches exactly two backslashes (unit-wise rewriting of the escaped text)",
-         R.conj(R.T_language(T["r1"], U), R.cat(R.MARK, ANY, R.MARK)), two_bs, "r1"),
-        ("S1' two backslashes are matched by it", two_bs, R.T_language(T["r1"], U), "r1"),
+        ("S1 in any context the first substitution's regex matches two backslashes and nothing else",
+         R.conj(R.T_language(T["r1"], U), R.cat(ANY, R.MARK, ANY, R.MARK, ANY)), two_bs_anywhere, "r1"),
+        ("S1' it matches a unit of two backslashes wherever that unit stands in an escaped text", two_bs_unit, R.T_language(T["r1"], U), "r1"),
         ("F1 no escaped literal of two or more units fullmatches the one-unit regex", full("r2"), R.NONE, "r2"),
         ("F2 the class-simplifying regex has no match inside an escaped literal", inside("classes"), R.NONE, "classes"),
         ("F3 '[a]' is not an escaped literal", R.conj(L1, lit("[a]")), R.NONE, None),
@@ -262,7 +265,9 @@ def decide_classes(rep):
     unitm = R.alt(R.cat(R.cs(X), OM), R.cat(R.cs(BS), OM, R.cs(NB), OM))
     CL1_from0 = R.cat(R.MARK, R.cs(R.cs_of("[")), OM, unitm, R.star(unitm), R.cs(R.cs_of("]")), OM)     # first marker at position 0
     whole = R.cat(R.MARK, CL1, R.MARK)
-    two_bs = R.cat(R.MARK, R.cs(BS), R.cs(BS), R.MARK)
+    unit0 = R.alt(R.cs(X), R.cat(R.cs(BS), R.cs(U)))                   # the units of a bracket body, before the first substitution
+    two_bs_anywhere = R.cat(ANY, R.MARK, R.cs(BS), R.cs(BS), R.MARK, ANY)
+    two_bs_unit = R.cat(R.cs(R.cs_of("[")), R.star(unit0), R.MARK, R.cs(BS), R.cs(BS), R.MARK, R.star(unit0), R.cs(R.cs_of("]")))
     TC = R.T_language(T["classes"], U)
     for k, A in (("CL1", CL1), ("r2", R.conj(R.T_language(T["r2"], U), R.cat(ANY, R.MARK, ANY, R.MARK, ANY))),
                  ("classes", R.conj(TC, R.cat(ANY, R.MARK, ANY, R.MARK, ANY)))):
@@ -277,8 +282,9 @@ def decide_classes(rep):
             any(isinstance(n, ast.Compare) and isinstance(n.comparators[0], ast.Constant) and n.comparators[0].value == replc
                 for n in ast.walk(fi.node)))
     facts = [
-        ("S1 the first substitution's regex matches exactly two backslashes", R.conj(R.T_language(T["r1"], U), R.cat(R.MARK, ANY, R.MARK)), two_bs),
-        ("S1' two backslashes are matched by it", two_bs, R.T_language(T["r1"], U)),
+        ("S1 in any context the first substitution's regex matches two backslashes and nothing else",
+         R.conj(R.T_language(T["r1"], U), R.cat(ANY, R.MARK, ANY, R.MARK, ANY)), two_bs_anywhere),
+        ("S1' it matches a unit of two backslashes wherever that unit stands in a bracket body", two_bs_unit, R.T_language(T["r1"], U)),
         ("C1 no bracket text fullmatches the one-unit regex", R.conj(R.T_language(T["r2"], U), whole), R.NONE),
         ("C2 a match of the class-simplifying regex that starts a bracket text ends at its end", R.conj(TC, CL1_from0), whole),
         ("C2' the class-simplifying regex matches every bracket text as a whole", whole, TC),
